@@ -19,10 +19,10 @@ def impl_cfg(max_segs, max_len, max_cap, rich, short, bineof):
     return cfg
 
 
-def gen_cfg(family, out, max_segs=2, max_len=2, max_cap=4, rich=False, short="yes", invs=()):
+def gen_cfg(family, out, max_segs=2, max_len=2, max_cap=4, rich=False, short="yes", invs=(), zero=False):
     cfg = ("CONSTANTS\n  Family = \"%s\"\n  MaxSegs = %d\n  MaxLen = %d\n  MaxCap = %d\n  Rich = %s\n  WithShort = \"%s\"\n"
-           "  OutFile = \"%s\"\nINIT Init\nNEXT Next\n"
-           % (family, max_segs, max_len, max_cap, "TRUE" if rich else "FALSE", short, out))
+           "  OutFile = \"%s\"\n  ZeroReads = %s\nINIT Init\nNEXT Next\n"
+           % (family, max_segs, max_len, max_cap, "TRUE" if rich else "FALSE", short, out, "TRUE" if zero else "FALSE"))
     for inv in tuple(invs) + ("PrefixOK", "Emit"):
         cfg += "INVARIANT %s\n" % inv
     cfg += "CHECK_DEADLOCK FALSE\n"
@@ -242,7 +242,9 @@ def run(ctx):
                 "sequences. MBT: MC_PFB emits (input bytes, buffer sizes, reader script, content, terminal class): exh = all "
                 "streams within the bounds x all buffer-size sequences up to the first call that cannot be filled x reader "
                 "scripts; hdr = all 65536 first-two-byte values x 4 length fields; sim = seeded random streams with segments "
-                "up to 2000 bytes and buffers 1..64. vh replay-pfb calls pfb.Decode(r).Read with exactly those sizes and "
+                "up to 2000 bytes and buffers 0..64; big = described segments of 65535..65537 and 2^24-1..2^24+3 bytes (every byte of the "
+                "length field), judged by the harness's transcription of PfbReadOK. Buffer-size sequences of the exh family contain "
+                "one Read with an empty buffer (returns nothing, changes nothing). vh replay-pfb calls pfb.Decode(r).Read with exactly those sizes and "
                 "judges every result; the recorded observations of a sample are validated again by TLC (TracePFB), which also "
                 "cross-checks the harness comparator. TV: seeded random streams/schedules recorded from the real decoder and "
                 "validated by TLC against PfbParse of the recorded input. Every vector is a distinct stimulus.")
@@ -272,11 +274,11 @@ def run(ctx):
 
     # ---- MBT
     if q:
-        vec = generate(ctx, "exh", "exh", invs=("ParseAgrees", "ClassAgrees"), max_segs=2, max_len=2, max_cap=4)
+        vec = generate(ctx, "exh", "exh", invs=("ParseAgrees", "ClassAgrees"), max_segs=2, max_len=2, max_cap=4, zero=True)
         s_exh = replay_vectors(ctx, vec, "exh", 8)
-        bounds = ["<=2 segments, payload 0..2, buffers 1..4, 4 reader scripts x 2 EOF modes"]
+        bounds = ["<=2 segments, payload 0..2, buffers 1..4 and one empty buffer per sequence, 4 reader scripts x 2 EOF modes"]
     else:
-        vec = generate(ctx, "exh", "exh", invs=("ParseAgrees", "ClassAgrees"), max_segs=3, max_len=2, max_cap=4)
+        vec = generate(ctx, "exh", "exh", invs=("ParseAgrees", "ClassAgrees"), max_segs=3, max_len=2, max_cap=4, zero=True)
         s_exh = replay_vectors(ctx, vec, "exh", 24)
         vec2 = generate(ctx, "exh", "exh2", invs=("ParseAgrees",), max_segs=2, max_len=3, max_cap=4, rich=True)
         replay_vectors(ctx, vec2, "exh2", 48)
@@ -296,6 +298,15 @@ def run(ctx):
     s_hdr = replay_vectors(ctx, vec, "hdr", 64)
     if s_hdr["vectors"] != 65536 * 4 and s_hdr.get("hangs", 0) < 3:
         raise core.Broken("hdr family: %d vectors instead of 262144" % s_hdr["vectors"])
+    os.remove(vec)
+    # segments of 64 KiB and 16 MiB (every byte of the length field matters); judged by the harness's
+    # transcription of PfbReadOK only (TLC cannot read 16 MiB observations back)
+    vec = generate(ctx, "big", "big", rich=not q)
+    s_big = ctx.vh_json("replay-pfb", vec, timeout=3000)
+    if s_big["vectors"] < 20:
+        raise core.Broken("big family: %d vectors" % s_big["vectors"])
+    absorb(ctx, s_big, "vh replay-pfb (big)")
+    ctx.extra["mbt_big"] = {"vectors": s_big["vectors"], "agreed": s_big["agreed"], "classes": s_big["per_op"], "by_sig": s_big["by_sig"]}
     os.remove(vec)
     vec = generate(ctx, "sim", "sim", invs=("ParseAgreesSim",), simulate=400 if q else 10000)
     replay_vectors(ctx, vec, "sim", 1 if q else 4)
